@@ -289,11 +289,12 @@ def run_check(pid, tier, seed, replay=None):
             for line in open(corpus):
                 if line.strip():
                     c = json.loads(line); cases.append(Case("corpus", c["cmd"], c["args"], c.get("kind", "model")))
-        search_tier = tier
+        cases += list(mod.streams(rng, tier))
         if proof_broken and tier == "quick":
-            search_tier = "thorough"      # failing-input search after a proof break
-            notes.append("proof obligation broken: running the failing-input search at thorough size")
-        cases += list(mod.streams(rng, search_tier))
+            # failing-input search after a proof break: more generated cases (further seeds), bounded so that the check still ends in minutes
+            notes.append("proof obligation broken: failing-input search with 3 additional generation seeds")
+            for extra_seed in (1, 2, 3):
+                cases += list(mod.streams(random.Random(rng.randrange(2 ** 32) + extra_seed), tier))
     # de-duplicate, keep order
     seen, uniq = set(), []
     for c in cases:
